@@ -22,6 +22,8 @@ for r in rec["ran"]:
                 r["note"] = "command names test targets that belong to other seeded changes of the same author (not run)"
             elif r.get("s", 999) < 90 and all(re.fullmatch(r"\s*[\w]*\s*", l) for l in r.get("tail", "").splitlines()[1:]):
                 r["note"] = "cargo listed the available test targets: the command names targets of other seeded changes (not run)"
+            elif "Argument to option" in r.get("tail", "") and "missing" in r.get("tail", ""):
+                r["note"] = "command could not be parsed from the author's free-form description (not run)"
             elif not r.get("cmd", "").strip() or "unexpected argument" in r.get("tail", ""):
                 r["note"] = "command could not be parsed from the author's free-form description (not run)"
             else:
